@@ -68,6 +68,7 @@ def main(argv):
     results = json.loads(out_path.read_text()) if out_path.exists() else {}
     with ThreadPoolExecutor(max_workers=par) as ex:
         for r in ex.map(one, ids):
+            results = json.loads(out_path.read_text()) if out_path.exists() else {}     # other sweeps may be running
             results[r["id"]] = r
             caught = [p for p, x in r.get("runs", {}).items() if x["exit"] == 1]
             print("%s: %s %s" % (r["id"], "CAUGHT by " + ",".join(caught) if caught else "MISSED" if not r.get("error") else "ERROR " + r["error"][:120],
